@@ -8,6 +8,7 @@
 #define QCAP 4
 #endif
 #define VF_SEQ_EXACT (QCAP + 1)
+#define VF_SET_EXACT 2 /* the receiver's activities_ set holds at most 2 activities before irecv (ACAP) */
 #include "gen.h"
 
 #define QSZ (QCAP + 2)
@@ -32,6 +33,21 @@ size_t g_copy_size;
 size_t g_dst_size; /* the receiver's capacity / received size (*dst_buff_size_) */
 
 size_t gk, gj;
+
+/* ---- receive side (CommImpl::irecv) ---- */
+#define ACAP 4
+struct CommIrecvSimcall g_obs;       /* the receive request: mailbox g_mb, issuer g_actor, filter absent or filter_of_caller */
+struct ActorImpl g_actor;
+struct ActivityImpl* g_actd[ACAP];   /* storage of g_actor.activities_ */
+struct CommImpl* g_new;              /* allocation model: the object `new CommImpl()` returns next, an object of the universe
+                                        that no queue holds */
+_Bool g_acc[NCOMM];                  /* ghost, pinned at the entry of irecv: comm i is a send that both filters accept */
+size_t gc;                           /* ghost index of an arbitrary comm of the universe */
+int g_mc_active, g_mc_replay;        /* what MC_is_active() / MC_record_replay_is_active() return */
+double g_remaining;                  /* what ActivityImpl::get_remaining() returns */
+int g_starts;                        /* ghost log of CommImpl::start(): calls, last comm, its state at that moment */
+struct CommImpl* g_started;
+int g_started_state;
 
 /* the two filters (models of user code, with bodies so that the calls through struct vf_fn have a target) */
 _Bool filter_of_caller(void* env, void* mine, void* theirs, struct CommImpl* comm)
@@ -69,6 +85,7 @@ _Static_assert(CommImplType__SEND == 0, "CommImplType layout");
 #define ALLPAIRS(P) (P(0, 1) && P(0, 2) && P(0, 3) && P(1, 2) && P(1, 3) && P(2, 3))
 #define IS_COMM(p) ((p) == &g_comm[0] || (p) == &g_comm[1] || (p) == &g_comm[2] || (p) == &g_comm[3] || (p) == &g_comm[4])
 #define ALLCOMM_MBOX g_comm[0].mbox_, g_comm[1].mbox_, g_comm[2].mbox_, g_comm[3].mbox_, g_comm[4].mbox_
+#define ALLCOMM(P) (P(0) && P(1) && P(2) && P(3) && P(4))
 #elif QCAP == 6
 #define ALLQ(P) (P(0) && P(1) && P(2) && P(3) && P(4) && P(5))
 #define ANYQ(P) (P(0) || P(1) || P(2) || P(3) || P(4) || P(5))
@@ -80,6 +97,7 @@ _Static_assert(CommImplType__SEND == 0, "CommImplType layout");
    (p) == &g_comm[5] || (p) == &g_comm[6])
 #define ALLCOMM_MBOX                                                                                                   \
   g_comm[0].mbox_, g_comm[1].mbox_, g_comm[2].mbox_, g_comm[3].mbox_, g_comm[4].mbox_, g_comm[5].mbox_, g_comm[6].mbox_
+#define ALLCOMM(P) (P(0) && P(1) && P(2) && P(3) && P(4) && P(5) && P(6))
 #else
 #error "QCAP must be 4 or 6"
 #endif
@@ -133,9 +151,13 @@ void MailboxImpl__remove(struct MailboxImpl* self, struct CommImpl* comm)
 /* ---------------- find_matching_comm ---------------------------------------------------------------------------- */
 /* position k of the selected queue is acceptable to both sides (evaluated on the state at entry) */
 #define SN(done) ((done) ? g_mb.done_comm_queue_.n : g_mb.comm_queue_.n)
-#define OLDSN (done ? __CPROVER_old(g_mb.done_comm_queue_.n) : __CPROVER_old(g_mb.comm_queue_.n))
-#define OLDS(k) (done ? __CPROVER_old(g_dd[(k)]) : __CPROVER_old(g_qd[(k)]))
-#define CUR(k) (done ? g_dd[(k)] : g_qd[(k)])
+/* D selects the queue (done_comm_queue_ / comm_queue_); the unsuffixed forms are those of find_matching_comm(.., done, ..) */
+#define OLDSN_(D) ((D) ? __CPROVER_old(g_mb.done_comm_queue_.n) : __CPROVER_old(g_mb.comm_queue_.n))
+#define OLDS_(D, k) ((D) ? __CPROVER_old(g_dd[(k)]) : __CPROVER_old(g_qd[(k)]))
+#define CUR_(D, k) ((D) ? g_dd[(k)] : g_qd[(k)])
+#define OLDSN OLDSN_(done)
+#define OLDS(k) OLDS_(done, k)
+#define CUR(k) CUR_(done, k)
 #define ACCEPT_C(c)                                                                                                    \
   ((c)->type_ == type && (match_fun->fn == 0 || g_i_accept[IDX(c)]) && ((c)->match_fun.fn == 0 || g_it_accepts[IDX(c)]))
 #define ACCEPT_OLD(k) ((k) < OLDSN && ACCEPT_C(OLDS(k)))
@@ -210,6 +232,137 @@ void CommImpl__copy_data(struct CommImpl* self)
                        g_copy_size == g_dst_size)) /*@ copy_callback_gets_the_senders_buffer_and_that_size */
     __CPROVER_ensures(!WILL_COPY || g_dst_size != 0 || g_copy_calls == 0) /*@ copy_nothing_for_empty_payload */;
 
+/* ---------------- irecv (receive side) ------------------------------------------------------------------------------- */
+/* models of what irecv calls outside C08 (assumed): allocation, the network start, the MC switches, the remaining work */
+struct CommImpl* CommImpl__new(void)
+{
+  struct CommImpl* c = g_new; /* allocation model: see g_new; default member initialisers of CommImpl.hpp / ActivityImpl.hpp */
+  c->__b_ActivityImpl_T_CommImpl.__b_ActivityImpl.state_        = State__WAITING;
+  c->__b_ActivityImpl_T_CommImpl.__b_ActivityImpl.model_action_ = NULL;
+  c->type_                                                      = CommImplType__SEND;
+  c->mbox_                                                      = NULL;
+  c->rate_                                                      = -1.0;
+  c->copied_                                                    = 0;
+  c->match_fun.fn                                               = 0;
+  c->match_fun.env                                              = 0;
+  c->copy_data_fun.fn                                           = 0;
+  c->copy_data_fun.env                                          = 0;
+  c->src_buff_                                                  = NULL;
+  c->dst_buff_size_                                             = NULL;
+  c->dst_actor_                                                 = NULL;
+  return c;
+}
+#define STATE_OF(c) ((c)->__b_ActivityImpl_T_CommImpl.__b_ActivityImpl.state_)
+struct CommImpl* CommImpl__start(struct CommImpl* self)
+{
+  if (g_starts < 2)
+    g_starts++;
+  g_started       = self;
+  g_started_state = STATE_OF(self); /* what start() looks at: only a READY comm (both sides known) begins its transfer */
+  return self;
+}
+int MC_is_active(void)
+{
+  return g_mc_active;
+}
+int MC_record_replay_is_active(void)
+{
+  return g_mc_replay;
+}
+double ActivityImpl__get_remaining(struct ActivityImpl* self)
+{
+  return g_remaining;
+}
+
+/* D: the branch irecv takes - mailbox with a permanent receiver that already holds eagerly received sends */
+#define IRD (__CPROVER_old(g_mb.permanent_receiver_) != NULL && __CPROVER_old(g_mb.done_comm_queue_.n) != 0)
+#define IR_OLDSN OLDSN_(IRD)
+#define IR_OLDS(k) OLDS_(IRD, k)
+#define IR_CUR(k) CUR_(IRD, k)
+#define IR_SN SN(IRD)
+#define Dn (g_mb.done_comm_queue_.n)
+#define oldDn __CPROVER_old(g_mb.done_comm_queue_.n)
+/* ghost table pinned on entry: comm i is a pending SEND that the receiver's filter and its own filter accept */
+#define ACC_PIN(i)                                                                                                     \
+  (g_acc[i] == (g_comm[i].type_ == SEND && (g_obs.match_fun_.fn == 0 || g_i_accept[i]) &&                              \
+                (g_comm[i].match_fun.fn == 0 || g_it_accepts[i])))
+/* table lookup by pointer comparison (a pointer difference would put a 64-bit divider into every clause) */
+#if QCAP == 4
+#define ACC_OF(p)                                                                                                      \
+  ((p) == &g_comm[0] ? g_acc[0] : (p) == &g_comm[1] ? g_acc[1] : (p) == &g_comm[2] ? g_acc[2] : (p) == &g_comm[3] ? g_acc[3] : g_acc[4])
+#else
+#define ACC_OF(p)                                                                                                      \
+  ((p) == &g_comm[0] ? g_acc[0] : (p) == &g_comm[1] ? g_acc[1] : (p) == &g_comm[2] ? g_acc[2] : (p) == &g_comm[3] ? g_acc[3] : \
+   (p) == &g_comm[4] ? g_acc[4] : (p) == &g_comm[5] ? g_acc[5] : g_acc[6])
+#endif
+#define IR_ACC_OLD(k) ((k) < IR_OLDSN && ACC_OF(IR_OLDS(k)))
+#define IR_NOACC_BELOW(j, k) (!((j) < (k)) || !IR_ACC_OLD(j))
+#if QCAP == 4
+#define IR_ANY (IR_ACC_OLD(0) || IR_ACC_OLD(1) || IR_ACC_OLD(2) || IR_ACC_OLD(3))
+#define IR_NONE_BEFORE(k) (IR_NOACC_BELOW(0, k) && IR_NOACC_BELOW(1, k) && IR_NOACC_BELOW(2, k) && IR_NOACC_BELOW(3, k))
+#else
+#define IR_ANY (IR_ACC_OLD(0) || IR_ACC_OLD(1) || IR_ACC_OLD(2) || IR_ACC_OLD(3) || IR_ACC_OLD(4) || IR_ACC_OLD(5))
+#define IR_NONE_BEFORE(k)                                                                                              \
+  (IR_NOACC_BELOW(0, k) && IR_NOACC_BELOW(1, k) && IR_NOACC_BELOW(2, k) && IR_NOACC_BELOW(3, k) &&                     \
+   IR_NOACC_BELOW(4, k) && IR_NOACC_BELOW(5, k))
+#endif
+#define IR_FIRST_AT(k) (IR_ACC_OLD(k) && IR_NONE_BEFORE(k))
+#define NOT_AT_D(k, c) (!((k) < Dn) || g_dd[k] != (c))
+#define NOT_IN_D(c) (NOT_AT_D(0, c) && NOT_AT_D(1, c) && NOT_AT_D(2, c) && NOT_AT_D(3, c) && (QCAP == 4 || (NOT_AT_D(4, c) && NOT_AT_D(5, c))))
+#define RET ((struct CommImpl*)__CPROVER_return_value)
+#define ISSUER (g_obs.__b_DelayedSimcallObserver.__b_SimcallObserver.issuer_)
+#define ACTS (g_actor.activities_)
+#define ACTS_HAS(c)                                                                                                    \
+  ((ACTS.n > 0 && g_actd[0] == (struct ActivityImpl*)(c)) || (ACTS.n > 1 && g_actd[1] == (struct ActivityImpl*)(c)) || \
+   (ACTS.n > 2 && g_actd[2] == (struct ActivityImpl*)(c)))
+#define MC_RUN (g_mc_active != 0 || g_mc_replay != 0)
+/* the sub-case "eagerly received and already finished": the comm is completed at once and never registered */
+#define IR_FINISHED                                                                                                    \
+  (IRD && RET != g_new && RET->__b_ActivityImpl_T_CommImpl.__b_ActivityImpl.model_action_ != NULL && g_remaining < 1e-12)
+
+/* A receive is matched with the OLDEST pending send that both filters accept (in comm_queue_, or among the eagerly
+ * received sends of a mailbox with a permanent receiver); that send leaves its queue and the others keep their order;
+ * when there is none the receive is queued at the tail of comm_queue_.  Payload and size of every send are untouched.
+ * (the state after irecv does not satisfy WF_MB as written: the queued receive now carries the CALLER's filter, which
+ * the model keeps apart from the filters of queued comms)                                                             */
+struct ActivityImpl* CommImpl__irecv(struct CommIrecvSimcall* observer)
+    __CPROVER_requires(observer == &g_obs && g_obs.mbox_ == &g_mb && WF_MB && vf_exc == 0 && gc < NCOMM)
+    __CPROVER_requires(g_obs.match_fun_.fn == 0 || g_obs.match_fun_.fn == (vf_fnptr)filter_of_caller)
+    __CPROVER_requires(ISSUER == &g_actor && ACTS.k == g_actd && ACTS.cap == ACAP && ACTS.n <= 2)
+    __CPROVER_requires(IS_COMM(g_new) && NOT_IN_Q(g_new) && NOT_IN_D(g_new)) /* allocation model */
+    __CPROVER_requires(ALLCOMM(ACC_PIN) && g_starts == 0)
+    __CPROVER_assigns(vf_exc, __CPROVER_object_whole(g_comm), g_mb.comm_queue_.n, g_mb.done_comm_queue_.n,
+                      __CPROVER_object_whole(g_qd), __CPROVER_object_whole(g_dd), g_obs.comm_, g_actor.activities_.n,
+                      __CPROVER_object_whole(g_actd), g_starts, g_started, g_started_state)
+    __CPROVER_ensures(vf_exc == 0 && RET != NULL && IS_COMM(RET) && g_obs.comm_ == RET) /*@ irecv_returns_the_comm_it_hands_to_the_observer */
+    __CPROVER_ensures((RET == g_new) == !IR_ANY) /*@ irecv_matches_iff_an_acceptable_send_is_pending */
+    __CPROVER_ensures(!IR_FIRST_AT(gk) || RET == IR_OLDS(gk)) /*@ irecv_matches_the_oldest_acceptable_send */
+    __CPROVER_ensures(!IR_FIRST_AT(gk) ||
+                      (IR_SN == IR_OLDSN - 1 && (!(gj < gk) || IR_CUR(gj) == IR_OLDS(gj)) &&
+                       (!(gk <= gj && gj < IR_SN) || IR_CUR(gj) == IR_OLDS(gj + 1))))
+    /*@ irecv_matched_send_leaves_its_queue_and_the_rest_keeps_its_order */
+    __CPROVER_ensures(IR_ANY || (Qn == oldQn + 1 && g_qd[oldQn] == g_new && g_new->type_ == RECV && g_new->mbox_ == &g_mb))
+    /*@ irecv_without_match_is_queued_at_the_tail */
+    __CPROVER_ensures((IR_ANY && !IRD) || !(gk < oldQn) || g_qd[gk] == OLDQ(gk)) /*@ irecv_keeps_the_pending_comms_in_place */
+    __CPROVER_ensures(!(IR_ANY && IRD) || Qn == oldQn)
+    __CPROVER_ensures((IR_ANY && IRD) || (Dn == oldDn && (!(gk < oldDn) || g_dd[gk] == __CPROVER_old(g_dd[gk]))))
+    /*@ irecv_touches_only_the_queue_it_matched_in */
+    __CPROVER_ensures(RET->dst_actor_ == &g_actor && RET->match_fun.fn == g_obs.match_fun_.fn &&
+                      RET->dst_buff_ == g_obs.dst_buff_ && RET->dst_buff_size_ == g_obs.dst_buff_size_ &&
+                      RET->dst_match_data_ == g_obs.match_data_)
+    /*@ irecv_records_receiver_buffer_and_filter_on_the_comm */
+    __CPROVER_ensures(&g_comm[gc] == g_new ||
+                      (g_comm[gc].src_buff_ == __CPROVER_old(g_comm[gc].src_buff_) &&
+                       g_comm[gc].src_buff_size_ == __CPROVER_old(g_comm[gc].src_buff_size_) &&
+                       g_comm[gc].payload_ == __CPROVER_old(g_comm[gc].payload_) &&
+                       g_comm[gc].type_ == __CPROVER_old(g_comm[gc].type_)))
+    /*@ irecv_keeps_payload_and_size_of_every_send */
+    __CPROVER_ensures(IR_FINISHED || ACTS_HAS(RET)) /*@ irecv_registers_the_comm_with_the_receiver */
+    __CPROVER_ensures(IRD || MC_RUN ||
+                      (g_starts == 1 && g_started == RET && g_started_state == (IR_ANY ? State__READY : State__WAITING)))
+    /*@ irecv_starts_a_matched_pair_as_ready_and_a_lone_receive_as_waiting */
+    __CPROVER_ensures(!MC_RUN || (g_starts == 0 && STATE_OF(RET) == State__RUNNING)) /*@ irecv_under_mc_only_marks_running */;
+
 #include "gen.c"
 
 /* ---------------- harnesses ---------------------------------------------------------------------------------------- */
@@ -241,6 +394,15 @@ static void setup(void)
     g_comm[c].mbox_ = nondet_bool() ? NULL : (nondet_bool() ? &g_mb : &g_mb_other);
   }
   g_my_filter.fn              = nondet_bool() ? 0 : (vf_fnptr)filter_of_caller;
+  g_obs.match_fun_.fn         = nondet_bool() ? 0 : (vf_fnptr)filter_of_caller;
+  g_obs.mbox_                 = &g_mb;
+  g_obs.dst_buff_size_        = nondet_bool() ? NULL : &g_dst_size;
+  g_obs.__b_DelayedSimcallObserver.__b_SimcallObserver.issuer_ = &g_actor;
+  g_actor.activities_.k       = g_actd;
+  g_actor.activities_.cap     = ACAP;
+  g_mb.permanent_receiver_    = nondet_bool() ? NULL : &g_actor;
+  g_new                       = pick_comm();
+  g_starts                    = 0;
   g_mb.comm_queue_.d          = g_qd;
   g_mb.comm_queue_.cap        = QSZ;
   g_mb.done_comm_queue_.d     = g_dd;
@@ -284,6 +446,26 @@ void harness(void)
   vf_exc                = 0;
   g_copy_calls          = 0;
   CommImpl__copy_data(&g_me);
+  VF_CANARY_POINT;
+}
+#endif
+#if defined(H_irecv) || defined(H_irecv_perm) || defined(H_irecv_done)
+void harness(void)
+{
+  setup();
+  __CPROVER_assume(gc < NCOMM);
+  /* three harnesses cover every mailbox: no permanent receiver / permanent receiver without eagerly received sends (both
+   * take the rendez-vous branch; the constants let symbolic execution drop the other branch) / with some */
+#if defined(H_irecv)
+  g_mb.permanent_receiver_ = NULL;
+#elif defined(H_irecv_perm)
+  g_mb.permanent_receiver_ = &g_actor;
+  g_mb.done_comm_queue_.n  = 0;
+#else
+  g_mb.permanent_receiver_ = &g_actor;
+  __CPROVER_assume(g_mb.done_comm_queue_.n != 0);
+#endif
+  CommImpl__irecv(&g_obs);
   VF_CANARY_POINT;
 }
 #endif
